@@ -3,6 +3,16 @@
 import json, os, sys
 HERE = os.path.dirname(os.path.abspath(__file__))
 CLAIMED = {
+ "C01": ("model_checking",
+         "explicit-state BFS over operation histories on the real library; differential oracle live-vs-reopen plus lock-step reference model",
+         "Every history of the tree alphabet up to the stated depth from several scenes (incl. already re-opened ones), two uid orders, two handle policies, with GC and re-open points as deviation-bounded pseudo-operations: the live snapshot taken immediately before the final close must equal the snapshot of a fresh read-only opening, and must equal a boring reference model (nothing lost, duplicated or resurrected).",
+         "Bounded by depth, entity caps and deviation budget printed in the evidence; compared fields are those the statement lists plus metadata; GC only at explicit points and where the library calls it.",
+         "DESIGN.md §4 C01"),
+ "C05": ("model_checking",
+         "explicit-state BFS over builder/removal/follow-up histories on the real library; raw-file, live, re-open and lookup observers",
+         "All histories over builders, both removal entry points, the delete-permission flag and follow-up operations up to the stated depth, from scenes with every property-group membership pattern; after each history the removed identifiers must be absent from the file image, child lists, property groups and (once references are dropped and a GC ran) lookups and listings; refusals must change nothing; survivors must equal the reference model.",
+         "Bounded (depth, caps); protected descendants not explored; concatenated entities are covered by C04.",
+         "DESIGN.md §4 C05"),
  # id: (category, technique, text, note, design_ref)
  "C02": ("model_checking",
          "explicit-state BFS over operation histories on the real library + independent HDF5 structure validator after every close",
